@@ -393,7 +393,7 @@ func (sel *Selection) Delete() (err error) {
 	}
 	defer func() {
 		if endErr := sel.endEdit(NodeRequest{Source: sel, Delete: true, EditRoot: true}, true); endErr != nil {
-			err = fmt.Errorf("error during endEdit: %v, previous error: %w", endErr, err)
+			err = endEditErr(endErr, err)
 		}
 	}()
 
@@ -422,6 +422,13 @@ func (sel *Selection) Delete() (err error) {
 		}
 	}
 	return
+}
+
+func endEditErr(endErr error, previous error) error {
+	if previous == nil {
+		return fmt.Errorf("error during endEdit: %w", endErr)
+	}
+	return fmt.Errorf("error during endEdit: %w, previous error: %w", endErr, previous)
 }
 
 func findIntParam(params map[string][]string, param string) (int, bool) {
